@@ -3779,3 +3779,110 @@ func sharedCodecGuards(c *an.Ctx, rule string, allowed map[string]string, prefix
 	}
 	return examined
 }
+
+// sharedEnumSync is the writer/reader agreement rule for string enums that two
+// packages declare separately ("keep in sync"): the constants whose names start
+// with prefix must be the same set, with the same values, in both packages;
+// and every switch over such a value whose default case panics must have a case
+// for each of them (a value the reader does not know panics in the middle of an
+// upload or a refresh).
+func sharedEnumSync(c *an.Ctx, rule, pkgA, pkgB, prefix string) {
+	consts := func(pkgName string) map[string]string {
+		out := map[string]string{}
+		for _, pkg := range c.Prog.SSA.AllPackages() {
+			if an.Short(pkg.Pkg.Path()) != pkgName {
+				continue
+			}
+			for name, m := range pkg.Members {
+				if nc, ok := m.(*ssa.NamedConst); ok && strings.HasPrefix(name, prefix) && nc.Value.Value != nil && nc.Value.Value.Kind() == constant.String {
+					out[name] = constant.StringVal(nc.Value.Value)
+				}
+			}
+		}
+		return out
+	}
+	a, b := consts(pkgA), consts(pkgB)
+	key := fmt.Sprintf("%s.%s* and %s.%s* agree", pkgA, prefix, pkgB, prefix)
+	if len(a) == 0 || len(b) == 0 {
+		c.Und(rule, key, token.NoPos, "constants not found (%d, %d)", len(a), len(b))
+		return
+	}
+	var diff []string
+	for n, v := range a {
+		if bv, ok := b[n]; !ok {
+			diff = append(diff, n+" only in "+pkgA)
+		} else if bv != v {
+			diff = append(diff, n+" differs")
+		}
+	}
+	for n := range b {
+		if _, ok := a[n]; !ok {
+			diff = append(diff, n+" only in "+pkgB)
+		}
+	}
+	sort.Strings(diff)
+	c.Check(len(diff) == 0, rule, key, token.NoPos, fmt.Sprintf("%d constants, same names and values", len(a)),
+		"the two declarations differ: "+strings.Join(diff, "; ")+" (the reader panics on a value it does not know)")
+	// switches with a panicking default
+	vals := map[string]bool{}
+	for _, v := range a {
+		vals[v] = true
+	}
+	for _, v := range b {
+		vals[v] = true
+	}
+	for _, fn := range c.AllFns {
+		if fn.Blocks == nil || c.IsTestFile(fn.Pos()) {
+			continue
+		}
+		pn := ""
+		if p := an.FnPkg(fn); p != nil {
+			pn = an.Short(p.Path())
+		}
+		if pn != pkgA && pn != pkgB {
+			continue
+		}
+		// a chain of "x == <const>" tests on one value ending in a panic
+		cases := map[ssa.Value]map[string]bool{}
+		for _, blk := range fn.Blocks {
+			ifi, ok := blk.Instrs[len(blk.Instrs)-1].(*ssa.If)
+			if !ok {
+				continue
+			}
+			bo, ok := ifi.Cond.(*ssa.BinOp)
+			if !ok || bo.Op != token.EQL {
+				continue
+			}
+			k, ok := bo.Y.(*ssa.Const)
+			if !ok || k.Value == nil || k.Value.Kind() != constant.String || !vals[constant.StringVal(k.Value)] {
+				continue
+			}
+			if cases[bo.X] == nil {
+				cases[bo.X] = map[string]bool{}
+			}
+			cases[bo.X][constant.StringVal(k.Value)] = true
+		}
+		hasPanic := false
+		for _, blk := range fn.Blocks {
+			if _, ok := blk.Instrs[len(blk.Instrs)-1].(*ssa.Panic); ok {
+				hasPanic = true
+			}
+		}
+		for _, got := range cases {
+			if len(got) < 2 || !hasPanic {
+				continue
+			}
+			var missing []string
+			for v := range vals {
+				if !got[v] {
+					missing = append(missing, v)
+				}
+			}
+			sort.Strings(missing)
+			k := an.FnKey(fn)
+			c.Analysed(k)
+			c.Check(len(missing) == 0, rule, k+" handles every "+prefix+" value", fn.Pos(), "a case for each declared value",
+				"no case for "+strings.Join(missing, ", ")+": the default branch panics")
+		}
+	}
+}
